@@ -3,7 +3,8 @@
    (Generated_ClientExempt.v, written from KNOWN_FINDINGS.d/C16.json).  No statement mentions a struct, field,
    mutex or function name of the code. *)
 From Coq Require Import List String Bool Arith.
-From Scalibr Require Import Sched.ClientRace Sched.Generated_ClientAccesses Sched.Generated_ClientExempt.
+From Scalibr Require Import Sched.ClientRace Sched.Generated_ClientAccesses Sched.Generated_ClientExempt
+                            Sched.Generated_ResolutionMutations.
 Import ListNotations.
 Open Scope string_scope.
 
@@ -69,8 +70,22 @@ Proof. split; [vm_compute; reflexivity | split; [vm_compute; discriminate | vm_c
 Definition seeded_escapes : list cescape :=
   mkesc "Producer" "List" "x.cached" "synthetic" 0 :: client_escapes.
 Definition seeded_mutations : list cmutate :=
-  mkmut "Consumer" "slices.SortFunc" "got.List" "Producer" "List" "synthetic" 0 :: client_mutations.
+  mkmut "Consumer" "slices.SortFunc" "got.List" "Producer" "List" "unknown" "synthetic" 0 :: client_mutations.
 
 Lemma cached_mutation_shape_is_detected_lemma :
   map m_expr (cached_mutations seeded_escapes seeded_mutations) = ["got.List"].
+Proof. vm_compute. reflexivity. Qed.
+
+(* guidedremediation/internal/resolution: the graph / subgraph values are shared by every vulnerability of a node
+   and by all concurrent patch attempts; no function mutates in place a slice or map it reached from its receiver
+   or a parameter without copying it first (the table is not empty: in-place filters of fresh copies exist) *)
+Lemma no_shared_subgraph_mutated_in_place_lemma :
+  shared_mutations resolution_mutations = [] /\
+  existsb (fun m => String.eqb (m_taint m) "fresh" && negb (String.eqb (m_op m) "index-assign")) resolution_mutations = true.
+Proof. split; vm_compute; reflexivity. Qed.
+
+(* the taint sees the shape (synthetic record) *)
+Lemma shared_mutation_shape_is_detected_lemma :
+  List.length (shared_mutations (mkmut "F" "slices.DeleteFunc" "old.Children" "other" "Children" "shared" "synthetic" 0
+                                 :: resolution_mutations)) = 1.
 Proof. vm_compute. reflexivity. Qed.
